@@ -480,6 +480,27 @@ def generate():
     L.append("].")
     L.append("")
     changed = write_if_changed(os.path.join(GEN, "RegexTables.v"), "\n".join(L))
+    # competitor lists (Model/RegexNum.competitors), sharded so that `make -j16` evaluates them in parallel:
+    # shard k holds the rows with index = k mod NSHARD (thorough tier; the quick tier keeps four rows)
+    NSHARD = 16
+    for k in range(NSHARD):
+        idx = [r["index"] for r in rows if r["index"] % NSHARD == k]
+        S = []
+        S.append("(* GENERATED by tools/gen/regexes.py — do not edit.  Shard %d of %d of the competitor lists:" % (k, NSHARD))
+        S.append("   evaluated once (Eval vm_compute) and re-checked by the kernel (the lemma). *)")
+        S.append("From Coq Require Import List NArith.")
+        S.append("Import ListNotations.")
+        S.append("From S4.Model Require Import Regex RegexPlan RegexDt RegexNum.")
+        S.append("From S4.Gen Require Import RegexTables.")
+        S.append("Open Scope N_scope.")
+        S.append("Definition comp_idx_%02d : list N := [%s]." % (k, "; ".join(str(i) for i in idx)))
+        S.append("Definition comp_rows_%02d : list (N * list N) :=" % k)
+        S.append("  Eval vm_compute in map (fun i => (i, competitors rx_table (rx_at rx_table i))) comp_idx_%02d." % k)
+        S.append("Lemma comp_rows_%02d_ok :" % k)
+        S.append("  forallb (fun p => list_eqb (competitors rx_table (rx_at rx_table (fst p))) (snd p)) comp_rows_%02d = true." % k)
+        S.append("Proof. vm_cast_no_check (eq_refl true). Qed.")
+        S.append("")
+        write_if_changed(os.path.join(GEN, "RegexCompShard_%02d.v" % k), "\n".join(S))
     with open(os.path.join(GEN, "regex_tables.json"), "w") as f:
         json.dump(dict(rows=[dict(index=r["index"], ncap=ncap, names=names, start=r["start"], end=r["end"], regex=r["regex"])
                              for r, node, ncap, names in parsed]), f)
